@@ -212,11 +212,20 @@ class G:
             eb = ["num", str(b)] if b >= 0 else ["neg", ["num", str(-b)]]
             return ["dr", ea, eb], NUM
         kk = s.weighted([(4, NUM), (2, STR), (1, BOOL), (1, ("ctx", (("k", NUM), ("m", STR))))])
-        return ["dl", self.expr(("list", kk), d - 1, env)], kk
+        self.dom_depth = getattr(self, "dom_depth", 0) + 1
+        try:
+            return ["dl", self.expr(("list", kk), d - 1, env)], kk
+        finally:
+            self.dom_depth -= 1
 
     def p_for(self, k, d, env):
         s = self.src
         n = s.weighted([(5, 1), (3, 2), (1, 3)])
+        if getattr(self, "dom_depth", 0) > 0:
+            # a `for` that is itself the domain of an enclosing iteration has ONE iteration context: the product of the domains of one
+            # loop stays in the hundreds (the statement of C05 grants "a few thousand"; the code under test copies the results so far
+            # for `partial` in every iteration, so tens of thousands of iterations with failing bodies take tens of seconds)
+            n = 1
         ctxs, env2 = [], dict(env)
         for _ in range(n):
             v = self.var(env2)
